@@ -52,7 +52,7 @@ def check(case):
         expected = ref.state(ast, assignment)
         # entry point 1: the tree evaluator with hand-made nodes
         tree = shared_tree
-        res = sut.call(api.evaluate_requirement_constraint_tree, tree, evalhelp.input_nodes(ast, assignment))
+        res = sut.call(lambda: api.evaluate_requirement_constraint_tree(tree, evalhelp.input_nodes(ast, assignment)))
         if not res.ok:
             fail("tree-raises", f"evaluate_requirement_constraint_tree({text!r}, {assignment}) raised {res!r}")
         got = sut.letter(res.value.conditions_fulfilled)
